@@ -118,6 +118,7 @@ func vIteByte(c bool, a, b byte) byte {
 	return b
 }
 func vFreeParseFloat(on bool) {}
+func vLazyFormat(on bool)     {}
 func vTry(f func()) (msg string, panicked bool) {
 	defer func() {
 		if p := recover(); p != nil {
